@@ -61,6 +61,10 @@ def lit_py(l):
         return U.CLASSES[l[1]]
     if k == "tuple":
         return tuple(lit_py(e) for e in l[1])
+    if k == "list":
+        return [lit_py(e) for e in l[1]]
+    if k == "dict":
+        return {lit_py(a): lit_py(b) for a, b in l[1]}
     raise ValueError(l)
 
 
@@ -75,6 +79,10 @@ def lit_src(l):
     if k == "tuple":
         inner = ", ".join(lit_src(e) for e in l[1])
         return "(" + inner + ("," if len(l[1]) == 1 else "") + ")"
+    if k == "list":
+        return "[" + ", ".join(lit_src(e) for e in l[1]) + "]"
+    if k == "dict":
+        return "{" + ", ".join(lit_src(a) + ": " + lit_src(b) for a, b in l[1]) + "}"
     return repr(lit_py(l))
 
 
@@ -115,6 +123,10 @@ def lit_coq(l):
         return f"(OClass {U.COQ_CLS[l[1]]})"
     if k == "tuple":
         return f"(OTuple {lib.clist([elt_coq(e) for e in l[1]])})"
+    if k == "list":
+        return f"(OList {lib.clist([elt_coq(e) for e in l[1]])})"
+    if k == "dict":
+        return "(ODict " + lib.clist([f"({elt_coq(a)}, {elt_coq(b)})" for a, b in l[1]]) + ")"
     raise ValueError(l)
 
 
@@ -136,14 +148,22 @@ def py_lit(o):
         return ("float", int(o * 2))
     if type(o) is str:
         return ("str", o)
-    if type(o) is tuple:
+    if type(o) in (tuple, list):
         es = []
         for e in o:
             l = py_lit(e)
             if l[0] not in ("none", "bool", "int", "str"):
                 raise OutOfFragment(repr(o))
             es.append(l)
-        return ("tuple", tuple(es))
+        return ("tuple" if type(o) is tuple else "list", tuple(es))
+    if type(o) is dict:
+        kvs = []
+        for a, b in o.items():
+            la, lb = py_lit(a), py_lit(b)
+            if la[0] not in ("none", "bool", "int", "str") or lb[0] not in ("none", "bool", "int", "str"):
+                raise OutOfFragment(repr(o))
+            kvs.append((la, lb))
+        return ("dict", tuple(kvs))
     for (c, k), inst in U.INSTANCES.items():
         if o is inst:
             return ("inst", c, k)
@@ -177,12 +197,28 @@ def base_coq(b):
         return f"(VSub {U.COQ_CLS[b[1]]})"
     if k == "tuple":
         return "(VTuple " + lib.clist([f"({lib.cbool(m)}, {ETY_COQ[t]})" for m, t in b[1]]) + ")"
+    if k == "gen":
+        g = b[1]
+        if g[0] == "list":
+            return f"(VGen (GList {ETY_COQ[g[1]]}))"
+        if g[0] == "dict":
+            return f"(VGen (GDict {ETY_COQ[g[1]]} {ETY_COQ[g[2]]}))"
+        return "(VGen GSeqPat)" if g[0] == "seqpat" else "(VGen GMapPat)"
     raise ValueError(b)
+
+
+ATTR_NAMES = ["__class__", "no_such_attr_"]  # hasattr() names (Coq: HasAttrExt index)
+
+
+def ext_coq(k, n):
+    if k == "hasattr":
+        return f"HasAttrExt {lib.cn(ATTR_NAMES.index(n))}"
+    return ("MinLen " if k == "min" else "MaxLen ") + lib.cz(n)
 
 
 def sval_coq(s):
     b, exts = s
-    return f"(SV {base_coq(b)} " + lib.clist([("MinLen " if k == "min" else "MaxLen ") + lib.cz(n) for k, n in exts]) + ")"
+    return f"(SV {base_coq(b)} " + lib.clist([ext_coq(k, n) for k, n in exts]) + ")"
 
 
 def value_coq(v):
@@ -196,9 +232,22 @@ def ety_value(t):
 
 
 def base_value(b):
-    from pyanalyze.value import AnySource, AnyValue, KnownValue, SequenceValue, SubclassValue, TypedValue
+    from pyanalyze.value import AnySource, AnyValue, GenericValue, KnownValue, SequenceValue, SubclassValue, TypedValue
 
     k = b[0]
+    if k == "gen":
+        g = b[1]
+        if g[0] == "list":
+            return GenericValue(list, [ety_value(g[1])])
+        if g[0] == "dict":
+            return GenericValue(dict, [ety_value(g[1]), ety_value(g[2])])
+        if g[0] == "seqpat":
+            from pyanalyze.patma import MatchableSequence
+
+            return MatchableSequence
+        from pyanalyze.signature import MappingValue
+
+        return MappingValue
     if k == "any":
         return AnyValue(AnySource.explicit)
     if k == "known":
@@ -219,7 +268,14 @@ def sval_value(s):
     b, exts = s
     v = base_value(b)
     if exts:
-        v = AnnotatedValue(v, [CustomCheckExtension(MinLen(n) if k == "min" else MaxLen(n)) for k, n in exts])
+        from pyanalyze.value import AnySource, AnyValue, HasAttrExtension, KnownValue
+
+        def ext_value(k, n):
+            if k == "hasattr":
+                return HasAttrExtension(KnownValue(n), AnyValue(AnySource.inference))
+            return CustomCheckExtension(MinLen(n) if k == "min" else MaxLen(n))
+
+        v = AnnotatedValue(v, [ext_value(k, n) for k, n in exts])
     return v
 
 
@@ -246,10 +302,20 @@ def decode_sval(v):
     from pyanalyze.value import AnnotatedValue, AnyValue, CustomCheckExtension, KnownValue, SequenceValue, SubclassValue, TypedValue
 
     exts = []
+    from pyanalyze.patma import MatchableSequence
+    from pyanalyze.signature import MappingValue
+    from pyanalyze.value import GenericValue
+
+    if v == MatchableSequence:
+        return (("gen", ("seqpat",)), ())
+    if v == MappingValue:
+        return (("gen", ("mappat",)), ())
     if isinstance(v, AnnotatedValue):
         for m in v.metadata:
             if isinstance(m, CustomCheckExtension) and type(m.custom_check) in (MinLen, MaxLen) and isinstance(m.custom_check.value, int):
                 exts.append(("min" if type(m.custom_check) is MinLen else "max", m.custom_check.value))
+            elif type(m).__name__ == "HasAttrExtension" and getattr(m.attribute_name, "val", None) in ATTR_NAMES:
+                exts.append(("hasattr", m.attribute_name.val))
             else:
                 raise OutOfFragment(f"metadata {m!r}")
         v = v.value
@@ -260,6 +326,10 @@ def decode_sval(v):
         b = ("known", py_lit(v.val))
     elif type(v) is SequenceValue and v.typ is tuple:
         b = ("tuple", tuple((bool(m), decode_ety(t)) for m, t in v.members))
+    elif type(v) is GenericValue and v.typ is list and len(v.args) == 1:
+        b = ("gen", ("list", decode_ety(v.args[0])))
+    elif type(v) is GenericValue and v.typ is dict and len(v.args) == 2:
+        b = ("gen", ("dict", decode_ety(v.args[0]), decode_ety(v.args[1])))
     elif type(v) is TypedValue and v.typ in rev and not v.literal_only:
         b = ("typed", rev[v.typ])
     elif type(v) is SubclassValue and type(v.typ) is TypedValue and v.typ.typ in rev and not v.exactly:
@@ -289,9 +359,9 @@ def norm(t):
 
 def unpack(n):
     """inverse of the Coq `pack`: (member V, holds (None/bool) as ("Some", b) or None, (in Np, in Nn), (clauses), guard)"""
-    bits = [(n >> k) & 1 == 1 for k in range(10)]
+    bits = [(n >> k) & 1 == 1 for k in range(12)]
     holds = ("Some", bits[1]) if bits[2] else None
-    return (bits[0], holds, (bits[3], bits[4]), (bits[5], bits[6], bits[7], bits[8]), bits[9])
+    return (bits[0], holds, (bits[3], bits[4]), (bits[5], bits[6], bits[7], bits[8], bits[9], bits[10]), bits[11])
 
 
 def model_lit(t):
@@ -313,14 +383,20 @@ def model_lit(t):
         return ("enum", rev[t[1]], t[2])
     if k == "OClass":
         return ("class", rev[t[1]])
-    if k == "OTuple":
+    if k == "ODict":
+        def el(e):
+            if e == "LNone":
+                return ("none",)
+            return ({"LBool": "bool", "LInt": "int", "LStr": "str"}[e[0]], "".join(chr(c) for c in e[1]) if e[0] == "LStr" else e[1])
+        return ("dict", tuple((el(a), el(b)) for a, b in t[1]))
+    if k in ("OTuple", "OList"):
         es = []
         for e in t[1]:
             if e == "LNone":
                 es.append(("none",))
             else:
                 es.append(({"LBool": "bool", "LInt": "int", "LStr": "str"}[e[0]], "".join(chr(c) for c in e[1]) if e[0] == "LStr" else e[1]))
-        return ("tuple", tuple(es))
+        return ("tuple" if k == "OTuple" else "list", tuple(es))
     raise ValueError(t)
 
 
@@ -339,9 +415,19 @@ def model_sval(t):
         base = ("sub", rev[b[1]])
     elif b[0] == "VTuple":
         base = ("tuple", tuple((m, rety[e]) for m, e in b[1]))
+    elif b[0] == "VGen":
+        g = b[1]
+        if g == "GSeqPat":
+            base = ("gen", ("seqpat",))
+        elif g == "GMapPat":
+            base = ("gen", ("mappat",))
+        elif g[0] == "GList":
+            base = ("gen", ("list", rety[g[1]]))
+        else:
+            base = ("gen", ("dict", rety[g[1]], rety[g[2]]))
     else:
         raise ValueError(b)
-    exts = tuple(("min" if e[0] == "MinLen" else "max", e[1]) for e in t[2])
+    exts = tuple(("hasattr", ATTR_NAMES[e[1]]) if e[0] == "HasAttrExt" else ("min" if e[0] == "MinLen" else "max", e[1]) for e in t[2])
     return (base, exts)
 
 
@@ -366,6 +452,13 @@ def sval_src(s):
         return None
     if k == "typed":
         return None if b[1] == "NoneType" else b[1]
+    if k == "gen":
+        g = b[1]
+        if g[0] == "list":
+            return f"list[{ETY_SRC[g[1]]}]"
+        if g[0] == "dict":
+            return f"dict[{ETY_SRC[g[1]]}, {ETY_SRC[g[2]]}]"
+        return None
     if k == "sub":
         return f"Type[{b[1]}]"
     if k == "tuple":
@@ -397,8 +490,113 @@ OPS = {"==": ("OpEq", operator.eq, ast.Eq), "!=": ("OpNe", operator.ne, ast.NotE
 MIRROR = {"==": "==", "!=": "!=", "<": ">", "<=": ">=", ">": "<", ">=": "<="}
 
 
+# ---------------------------------------------------------------------------
+# match patterns: ("p_wild",) ("p_lit",lit) ("p_class",cls) ("p_classsub",cls,pat)
+#   ("p_seq",(epat..),star,(epat..)) ("p_map",((key elt, epat)..)) ("p_or",p,q) ("p_as",p)
+#   epat: ("e_wild",) ("e_lit",elt) ("e_class",ety)
+# a case is written ("pat", pattern); expand() gives the condition the visitor's constraint means
+
+def expand(pat):
+    k = pat[0]
+    if k == "p_wild":
+        return ("always",)
+    if k == "p_lit":
+        return ("is", pat[1]) if pat[1][0] in ("none", "bool") else ("eq", pat[1])
+    if k == "p_class":
+        return ("matchclass", pat[1])
+    if k == "p_classsub":
+        return ("pand", ("isinstance", (pat[1],)), expand(pat[2]))
+    if k == "p_seq":
+        pre, star, post = pat[1], pat[2], pat[3]
+        n = len(pre) + len(post)
+        po = (n + (1 if star else 0)) > 1 or not star
+        if n == 0 and not star:
+            return ("pand", ("seqis", po), ("seqlen", 0, False))  # `case []`: no subpattern constraints at all
+        return ("pand", ("seqis", po), ("pand", ("seqlen", n, star), ("elems", pre, star, post)))
+    if k == "p_map":
+        if not pat[1]:
+            return ("mapis", False)  # `case {}`
+        return ("pand", ("mapis", True), ("mapkeys", pat[1]))
+    if k == "p_or":
+        return ("or", expand(pat[1]), expand(pat[2]))
+    if k == "p_as":
+        return expand(pat[1])
+    raise ValueError(pat)
+
+
+def epat_src(e):
+    if e[0] == "e_wild":
+        return "_"
+    if e[0] == "e_lit":
+        return lit_src(e[1])
+    return {"any": "_", "none": "None", "bool": "bool()", "int": "int()", "str": "str()"}[e[1]]
+
+
+def pat_src(pat):
+    k = pat[0]
+    if k == "p_wild":
+        return "_"
+    if k == "p_lit":
+        return lit_src(pat[1])
+    if k == "p_class":
+        return f"{pat[1]}()"
+    if k == "p_classsub":
+        return f"{pat[1]}({pat_src(pat[2])})"
+    if k == "p_seq":
+        parts = [epat_src(e) for e in pat[1]] + (["*_"] if pat[2] else []) + [epat_src(e) for e in pat[3]]
+        return "[" + ", ".join(parts) + "]"
+    if k == "p_map":
+        return "{" + ", ".join(lit_src(a) + ": " + epat_src(b) for a, b in pat[1]) + "}"
+    if k == "p_or":
+        return f"{pat_src(pat[1])} | {pat_src(pat[2])}"
+    if k == "p_as":
+        return f"({pat_src(pat[1])}) as y_"
+    raise ValueError(pat)
+
+
+_MATCHERS = {}
+
+
+def py_match(pat, o):
+    """Run a real match statement with this pattern on the object under CPython."""
+    fn = _MATCHERS.get(pat)
+    if fn is None:
+        env = dict(vars(U))
+        exec(f"def _m(x):\n    match x:\n        case {pat_src(pat)}:\n            return True\n    return False\n", env)
+        fn = _MATCHERS[pat] = env["_m"]
+    return fn(o)
+
+
+def epat_coq(e):
+    if e[0] == "e_wild":
+        return "EWild"
+    if e[0] == "e_lit":
+        return f"(ELit {elt_coq(e[1])})"
+    return f"(EClass {ETY_COQ[e[1]]})"
+
+
 def cond_coq(c):
     k = c[0]
+    if k == "pat":
+        return cond_coq(expand(c[1]))
+    if k == "seqis":
+        return f"(CSeqIs {lib.cbool(c[1])})"
+    if k == "seqlen":
+        return f"(CSeqLen {lib.cnat(c[1])} {lib.cbool(c[2])})"
+    if k == "elems":
+        return f"(CElems {lib.clist([epat_coq(e) for e in c[1]])} {lib.cbool(c[2])} {lib.clist([epat_coq(e) for e in c[3]])})"
+    if k == "mapis":
+        return f"(CMapIs {lib.cbool(c[1])})"
+    if k == "mapkeys":
+        return "(CMapKeys " + lib.clist([f"({elt_coq(a)}, {epat_coq(b)})" for a, b in c[1]]) + ")"
+    if k == "pand":
+        return f"(CPAnd {cond_coq(c[1])} {cond_coq(c[2])})"
+    if k == "assertinst":
+        return f"(CAssertInst {U.COQ_CLS[c[1]]})"
+    if k == "assertis":
+        return f"(CAssertIs {lit_coq(c[1])})"
+    if k == "hasattr":
+        return f"(CHasAttr {lib.cn(ATTR_NAMES.index(c[1]))} {lib.cbool(c[2])})"
     if k == "truthy":
         return "CTruthy"
     if k == "isinstance":
@@ -440,6 +638,11 @@ class Raises(Exception):
 def py_holds(c, o):
     """Run the condition on the object under CPython.  Returns bool, or raises Raises."""
     k = c[0]
+    if k == "pat":
+        try:
+            return py_match(c[1], o)
+        except Exception as ex:
+            raise Raises(repr(ex))
     try:
         if k == "truthy":
             return bool(o)
@@ -470,6 +673,20 @@ def py_holds(c, o):
                     return False
         if k == "always":
             return True
+        if k == "assertinst":
+            return isinstance(o, U.CLASSES[c[1]])
+        if k == "assertis":
+            return o is lit_py(c[1])
+        if k == "hasattr":
+            return hasattr(o, c[1])
+        if k == "seqis":
+            return py_match(("p_seq", (), True, ()), o)
+        if k == "mapis":
+            return py_match(("p_map", ()), o)
+        if k == "seqlen":
+            return len(o) >= c[1] if c[2] else len(o) == c[1]
+        if k in ("elems", "mapkeys"):
+            raise ValueError("only inside a pattern")
         if k == "opaque":
             return bool(c[1])
     except Raises:
@@ -478,6 +695,8 @@ def py_holds(c, o):
         raise Raises(repr(ex))
     if k == "not":
         return not py_holds(c[1], o)
+    if k == "pand":
+        return py_holds(c[1], o) and py_holds(c[2], o)
     if k == "and":
         return py_holds(c[1], o) and py_holds(c[2], o)
     if k == "or":
@@ -488,6 +707,10 @@ def py_holds(c, o):
 def py_cond_ok(c, o):
     """The quantifier's restriction: equality with a tested literal implies equal type."""
     k = c[0]
+    if k == "pat":
+        return py_cond_ok(expand(c[1]), o)
+    if k == "pand":
+        return py_cond_ok(c[1], o) and py_cond_ok(c[2], o)
     if k == "eq":
         l = lit_py(c[1])
         return not (o == l) or type(o) is type(l)
@@ -502,6 +725,20 @@ def py_cond_ok(c, o):
 
 def tested_of(c):
     k = c[0]
+    if k == "pat":
+        return tested_of(expand(c[1]))
+    if k == "pand":
+        return tested_of(c[1]) + tested_of(c[2])
+    if k == "assertinst":
+        return ((("typed", c[1]), ()),)
+    if k == "assertis":
+        return ((("known", c[1]), ()),)
+    if k == "seqis":
+        return ((("gen", ("seqpat",)), ()),)
+    if k == "seqlen":
+        return ((("typed", "tuple"), ()),)
+    if k == "mapis":
+        return ((("gen", ("mappat",)), ()),)
     if k == "isinstance":
         return tuple((("typed", x), ()) for x in c[1])
     if k == "issubclass":
@@ -556,8 +793,10 @@ def same_literal(o, l):
         return False
     if type(o) in (bool, int, float, str):
         return o == l
-    if type(o) is tuple:
+    if type(o) in (tuple, list):
         return len(o) == len(l) and all(same_literal(a, b) for a, b in zip(o, l))
+    if type(o) is dict:
+        return list(o) == list(l) and all(same_literal(o[a], l[a]) for a in o)
     return False
 
 
@@ -576,11 +815,23 @@ def py_member_s(o, s):
         r = isinstance(o, type) and (issubclass(o, c) or promoted_class(o, c))
     elif k == "tuple":
         r = type(o) is tuple and match_members(tuple(b[1]), tuple(o))
+    elif k == "gen":
+        g = b[1]
+        if g[0] == "list":
+            r = type(o) is list and all(py_member_ety(e, g[1]) for e in o)
+        elif g[0] == "dict":
+            r = type(o) is dict and all(py_member_ety(a, g[1]) and py_member_ety(e, g[2]) for a, e in o.items())
+        elif g[0] == "seqpat":
+            r = isinstance(o, U.Sequence) and not isinstance(o, (str, bytes, bytearray))
+        else:
+            r = isinstance(o, U.Mapping)
     else:
         raise ValueError(b)
     if not r:
         return False
     for kind, n in exts:
+        if kind == "hasattr":
+            continue
         try:
             ln = len(o)
         except Exception:
@@ -600,13 +851,16 @@ def py_member(o, v):
 # universe of run-time objects
 
 def universe_objects():
-    objs = [("none",), ("bool", True), ("bool", False), ("int", 0), ("int", 1), ("int", -1), ("int", 2),
-            ("float", 0), ("float", 3), ("float", 2), ("str", ""), ("str", "a"), ("str", "ab")]
-    objs += [("inst", c, k) for (c, k) in U.INSTANCES]
+    objs = [("none",), ("bool", True), ("bool", False), ("int", 0), ("int", 1), ("int", 2),
+            ("float", 0), ("float", 3), ("str", ""), ("str", "a"), ("str", "ab")]
+    objs += [("inst", c, k) for (c, k) in U.INSTANCES if (c, k) != ("A", 1)]
     objs += [("enum", c, i) for c in U.ENUM_MEMBERS for i in range(2)]
-    objs += [("class", c) for c in U.CLS_ORDER]
+    objs += [("class", c) for c in U.CLS_ORDER if c not in ("Sequence", "Mapping", "complex", "str", "tuple", "NoneType", "Falsy", "list", "dict")]
+    objs += [("list", ()), ("list", (("int", 1),)), ("list", (("int", 1), ("str", "a"))), ("list", (("str", "a"), ("int", 1), ("int", 2))),
+             ("dict", ()), ("dict", ((("str", "a"), ("int", 1)),)), ("dict", ((("str", "a"), ("int", 1)), (("str", "b"), ("none",)))),
+             ("tuple", (("str", "a"), ("int", 1))), ("tuple", (("int", 1), ("str", "a"), ("none",)))]
     objs += [("tuple", ()), ("tuple", (("int", 1),)), ("tuple", (("int", 1), ("str", "a"))), ("tuple", (("str", "a"),)),
-             ("tuple", (("int", 1), ("int", 2), ("int", 3))), ("tuple", (("bool", True),)), ("tuple", (("none",), ("str", "")))]
+             ("tuple", (("int", 1), ("int", 2), ("int", 3))), ("tuple", (("none",), ("str", "")))]
     return objs
 
 
@@ -639,6 +893,35 @@ def build_constraint(c, varname):
 
     k = c[0]
     P = ConstraintType.predicate
+    if k == "pat":
+        return build_constraint(expand(c[1]), varname)
+    if k == "assertinst":
+        return Constraint(varname, ConstraintType.is_instance, True, U.CLASSES[c[1]])
+    if k == "assertis":
+        return Constraint(varname, ConstraintType.is_value, True, lit_py(c[1]))
+    if k == "hasattr":
+        from pyanalyze.value import AnySource, AnyValue, HasAttrExtension, KnownValue
+
+        return Constraint(varname, ConstraintType.add_annotation, True, HasAttrExtension(KnownValue(c[1]), AnyValue(AnySource.inference)))
+    if k == "seqis":
+        from pyanalyze.patma import MatchableSequence
+
+        return Constraint(varname, P, True, IsAssignablePredicate(MatchableSequence, ctx(), positive_only=c[1]))
+    if k == "seqlen":
+        from pyanalyze.patma import LenPredicate
+
+        return Constraint(varname, P, True, LenPredicate(c[1], c[2], ctx()))
+    if k == "mapis":
+        from pyanalyze.signature import MappingValue
+
+        return Constraint(varname, P, True, IsAssignablePredicate(MappingValue, ctx(), positive_only=c[1]))
+    if k in ("elems", "mapkeys"):
+        # constraints on the elements / values: other variables, nothing about x
+        from pyanalyze.stacked_scopes import NULL_CONSTRAINT
+
+        return NULL_CONSTRAINT
+    if k == "pand":
+        return AndConstraint.make([build_constraint(c[1], varname), build_constraint(c[2], varname)])
     if k == "truthy":
         return Constraint(varname, ConstraintType.is_truthy, True, None)
     if k == "isinstance":
@@ -735,6 +1018,8 @@ def cond_src(c, defs, idx):
         return f"{name}(x)"
     if k == "opaque":
         return "opq()"
+    if k == "hasattr":
+        return f'hasattr(x, "{c[1]}")'
     if k == "not":
         e = cond_src(c[1], defs, idx)
         return None if e is None else f"not ({e})"
@@ -746,12 +1031,23 @@ def cond_src(c, defs, idx):
 
 
 def has_boolop(c):
+    if c[0] == "pat":
+        return False  # MatchOr builds the OR constraint directly (no BoolOp scope merging)
     if c[0] in ("and", "or"):
         return True
     return c[0] == "not" and has_boolop(c[1])
 
 
+def simple_boolop(c):
+    """not* (a and/or b) with a, b free of and/or: the end-to-end value is Model.narrow_e2e exactly."""
+    while c[0] == "not":
+        c = c[1]
+    return c[0] in ("and", "or") and not has_boolop(c[1]) and not has_boolop(c[2])
+
+
 def leaves_of(c):
+    if c[0] == "pat":
+        return []
     if c[0] == "not":
         return leaves_of(c[1])
     if c[0] in ("and", "or"):
@@ -787,7 +1083,15 @@ def case_src(i, v, c):
     if ann is None or not well_typed(v, c):
         return None
     defs = []
-    if c[0] == "matchclass":
+    if c[0] == "assertinst":
+        body = f"    assert_is_instance(x, {c[1]})\n    M1 = x\n"
+    elif c[0] == "assertis":
+        body = f"    assert_is(x, {lit_src(c[1])})\n    M1 = x\n"
+    elif c[0] == "not" and c[1][0] == "assertis":
+        body = f"    assert_is_not(x, {lit_src(c[1][1])})\n    M1 = x\n"
+    elif c[0] == "pat":
+        body = f"    match x:\n        case {pat_src(c[1])}:\n            M1 = x\n        case _:\n            M2 = x\n"
+    elif c[0] == "matchclass":
         body = f"    match x:\n        case {c[1]}():\n            M1 = x\n        case _:\n            M2 = x\n"
     elif c[0] == "always":
         return None
@@ -799,7 +1103,7 @@ def case_src(i, v, c):
     return "".join(defs) + f"def f_{i}(x: {ann}):\n" + body
 
 
-PRELUDE = ("from typing import Any, Literal, Type, Union\nfrom typing_extensions import TypeGuard, TypeIs\nfrom c02_universe import *\n"
+PRELUDE = ("from typing import Any, Literal, Type, Union\nfrom collections.abc import Mapping, Sequence\nfrom qcore.asserts import assert_is, assert_is_instance, assert_is_not\nfrom typing_extensions import TypeGuard, TypeIs\nfrom c02_universe import *\n"
            "def opq() -> bool:\n    raise NotImplementedError\n")
 
 
@@ -842,7 +1146,35 @@ ATOM_LITS = [("none",), ("bool", True), ("bool", False), ("int", 0), ("int", 1),
 SINGLETON_LITS = [("none",), ("bool", True), ("bool", False), ("enum", "E", 0), ("enum", "E", 1), ("enum", "IE", 1),
                   ("class", "B"), ("class", "int"), ("class", "A"), ("inst", "A", 0), ("inst", "Falsy", 0), ("inst", "AC", 0)]
 CLS_FOR_TYPED = ["object", "int", "bool", "float", "complex", "str", "tuple", "NoneType", "type", "A", "B", "C", "Falsy", "AC", "E", "IE", "EnumMeta"]
-TUPLES = [(), ((False, "int"),), ((False, "int"), (False, "str")), ((True, "int"),), ((False, "str"), (True, "int")), ((False, "any"), (False, "none"), (False, "bool"))]
+TUPLES = [(), ((False, "int"),), ((False, "int"), (False, "str")), ((True, "int"),), ((False, "str"), (True, "int")), ((False, "any"), (False, "none"), (False, "bool")),
+          ((False, "int"), (False, "str"), (False, "none")), ((False, "str"),), ((True, "str"),), ((False, "int"), (False, "int"))]
+GENS = [("list", "int"), ("list", "str"), ("list", "any"), ("dict", "str", "int"), ("dict", "str", "any"), ("dict", "int", "none")]
+EP = [("e_wild",), ("e_lit", ("int", 1)), ("e_lit", ("str", "a")), ("e_class", "int"), ("e_class", "str"), ("e_lit", ("none",))]
+
+
+def all_patterns():
+    W = ("e_wild",)
+    seqs = []
+    for n_pre in range(0, 4):
+        seqs.append(("p_seq", (W,) * n_pre, False, ()))
+        seqs.append(("p_seq", (W,) * n_pre, True, ()))
+    seqs += [("p_seq", (), True, (W,)), ("p_seq", (W,), True, (W,)), ("p_seq", (), True, (W, W)), ("p_seq", (W, W), True, (W,)),
+             ("p_seq", (("e_lit", ("int", 1)),), True, ()), ("p_seq", (("e_class", "int"), ("e_class", "str")), False, ()),
+             ("p_seq", (("e_class", "str"),), True, (("e_class", "int"),)), ("p_seq", (("e_lit", ("int", 1)), W), False, ()),
+             ("p_seq", (("e_lit", ("none",)),), False, ()), ("p_seq", (W, ("e_lit", ("str", "a"))), True, ())]
+    maps = [("p_map", ()), ("p_map", ((("str", "a"), W),)), ("p_map", ((("str", "a"), ("e_class", "int")),)), ("p_map", ((("str", "a"), W), (("str", "b"), W))),
+            ("p_map", ((("int", 1), ("e_lit", ("none",))),)), ("p_map", ((("str", "b"), ("e_lit", ("none",))),))]
+    basics = [("p_lit", ("none",)), ("p_lit", ("bool", True)), ("p_lit", ("int", 1)), ("p_lit", ("str", "a")), ("p_lit", ("enum", "E", 0)),
+              ("p_class", "int"), ("p_class", "str"), ("p_class", "tuple"), ("p_class", "list"), ("p_class", "dict"), ("p_class", "A"), ("p_class", "C")]
+    subs = [("p_classsub", "int", ("p_lit", ("int", 1))), ("p_classsub", "str", ("p_lit", ("str", "a"))), ("p_classsub", "bool", ("p_lit", ("bool", True))),
+            ("p_classsub", "tuple", ("p_seq", (W, W), False, ())), ("p_classsub", "tuple", ("p_seq", (W,), True, ())), ("p_classsub", "list", ("p_seq", (W,), True, ())),
+            ("p_classsub", "int", ("p_or", ("p_lit", ("int", 1)), ("p_lit", ("int", 2)))), ("p_classsub", "dict", ("p_map", ((("str", "a"), W),))),
+            ("p_classsub", "float", ("p_wild",)), ("p_classsub", "str", ("p_as", ("p_lit", ("str", "ab"))))]
+    out = seqs + maps + basics + subs
+    ors = [("p_or", seqs[1], ("p_lit", ("none",))), ("p_or", ("p_class", "int"), seqs[4]), ("p_or", seqs[2], seqs[6]), ("p_or", maps[1], seqs[3]),
+           ("p_or", ("p_lit", ("int", 1)), ("p_lit", ("str", "a"))), ("p_or", ("p_class", "A"), ("p_class", "C")), ("p_or", ("p_or", seqs[0], seqs[2]), seqs[5])]
+    ases = [("p_as", seqs[3]), ("p_as", ("p_class", "int")), ("p_as", maps[1]), ("p_as", ors[0])]
+    return out + ors + ases
 
 
 def all_svals():
@@ -851,6 +1183,9 @@ def all_svals():
     out += [(("typed", c), ()) for c in CLS_FOR_TYPED]
     out += [(("sub", c), ()) for c in ["object", "int", "float", "A", "B", "C", "AC", "E", "type"]]
     out += [(("tuple", t), ()) for t in TUPLES]
+    out += [(("gen", g), ()) for g in GENS]
+    out += [(("typed", c), ()) for c in ("list", "dict", "Sequence", "Mapping")]
+    out += [(("known", ("list", (("int", 1),))), ()), (("known", ("dict", ((("str", "a"), ("int", 1)),))), ())]
     out += [(("typed", "str"), (("min", 1),)), (("tuple", ((True, "int"),)), (("max", 2),)), (("typed", "tuple"), (("min", 1), ("max", 3)))]
     return out
 
@@ -876,6 +1211,14 @@ def all_leaves():
     out += [("matchclass", c) for c in ["int", "str", "A", "C", "float", "tuple", "bool"]]
     out.append(("always",))
     out += [("opaque", True), ("opaque", False)]
+    out += [("pat", p) for p in all_patterns()]
+    # assert-style constraint types (is_instance, is_value, add_annotation)
+    out += [("assertinst", c) for c in ("int", "float", "bool", "str", "A", "B", "C", "tuple", "object", "type", "EnumMeta", "list")]
+    out += [("assertis", l) for l in SINGLETON_LITS] + [("not", ("assertis", l)) for l in SINGLETON_LITS[:4]]
+    out += [("hasattr", "__class__", True), ("hasattr", "no_such_attr_", False)]
+    # the parts of a sequence / mapping pattern on their own (constrain_value route only)
+    out += [("seqis", True), ("seqis", False), ("mapis", True), ("mapis", False)]
+    out += [("seqlen", n, star) for n in (0, 1, 2, 3) for star in (False, True)]
     return out
 
 
@@ -884,6 +1227,8 @@ def is_simple_pattern(c):
     pattern): the implementation then feeds a MultiValuedValue to the next constraint, which
     Constraint.apply_to_value's docstring excludes; kept out of composite conditions."""
     k = c[0]
+    if k == "pat":
+        return False
     if k in ("isinstance", "issubclass", "typeis"):
         return len(c[1]) == 1
     if k == "typeguard":
@@ -923,7 +1268,9 @@ def load_corpus():
 
 
 def gen_files():
-    return {"NarrowTable.v": narrowtable.translate(str(lib.REPO))}
+    from translate import narrowpreds
+
+    return {"NarrowTable.v": narrowtable.translate(str(lib.REPO)), "NarrowPreds.v": narrowpreds.translate(str(lib.REPO))}
 
 
 # ---------------------------------------------------------------------------
@@ -933,6 +1280,8 @@ FINDINGS = {
     "subclass_bool": "C02-subclass-bool",
     "multiple_inheritance": "C02-multiple-inheritance",
     "enum_class_object": "C02-enum-class-literal",
+    "sequence_pattern_str": "C02-sequence-pattern-str",
+    "assert_promotion": "C02-assert-promotion",
 }
 COQ_HEADER = ("From Coq Require Import ZArith List Bool NArith. Import ListNotations.\n"
               "Require Import PV.Narrow.Base PV.Narrow.Model PV.Narrow.Guards.\n"
@@ -964,8 +1313,34 @@ def run(tier: str, replay: str | None = None):
     else:
         cases += load_corpus()
         # every (single value, leaf condition) pair in both tiers
-        cases += [((s,), l) for s in svals for l in leaves]
-        n_rand = 1200 if tier == "quick" else 60000
+        def pattern_leaf(l):
+            return l[0] in ("pat", "seqis", "seqlen", "mapis") or (l[0] == "not" and pattern_leaf(l[1]))
+
+        def pattern_relevant(sv):
+            b = sv[0]
+            return b[0] in ("any", "tuple", "gen") or (b[0] == "typed" and b[1] in ("object", "tuple", "list", "dict", "str", "Sequence", "Mapping", "int", "A")) or (
+                b[0] == "known" and b[1][0] in ("tuple", "list", "dict", "str", "int", "none"))
+
+        # every (single value, leaf condition) pair in both tiers; in the quick tier the match-pattern
+        # leaves are paired only with the values they can say something about
+        def collection_sval(sv):
+            b = sv[0]
+            return b[0] == "gen" or (b[0] == "typed" and b[1] in ("list", "dict", "Sequence", "Mapping")) or (b[0] == "known" and b[1][0] in ("list", "dict"))
+
+        def collection_leaf(l):
+            if l[0] == "not":
+                return collection_leaf(l[1])
+            if l[0] in ("isinstance", "typeis"):
+                return any(x in ("list", "dict", "tuple", "object", "str") or (isinstance(x, tuple) and x[-1] in ("tuple", "object")) for x in l[1])
+            return l[0] in ("truthy", "len", "rlen", "pat", "seqis", "seqlen", "mapis", "assertinst", "matchclass", "always")
+
+        def in_quick(sv, l):
+            if pattern_leaf(l) and not pattern_relevant(sv):
+                return False
+            return not collection_sval(sv) or collection_leaf(l)
+
+        cases += [((sv,), l) for sv in svals for l in leaves if tier == "thorough" or in_quick(sv, l)]
+        n_rand = 500 if tier == "quick" else 25000
         for _ in range(n_rand):
             cases.append((gen_value(rng, svals), gen_cond(rng, leaves, 2)))
     objs = universe_objects()
@@ -974,6 +1349,52 @@ def run(tier: str, replay: str | None = None):
     import time as _time
 
     _t = {"start": _time.time()}
+    # 4a. model: started now in a thread (coqc subprocesses) so that it overlaps the implementation runs
+    model_ok = proof is not None and not any("build failed" in b for b in proof.broken)
+    if not model_ok:
+        # a broken obligation (generated file or proof) does not stop the model itself from running:
+        # the evaluation needs only Narrow/{Base,Model,Guards}.vo
+        try:
+            model_ok, _log = lib.coq_make(["theories/Narrow/Guards.vo"], jobs=6)
+        except Exception:
+            model_ok = False
+    model_box = {}
+    model_thread = None
+    if model_ok:
+        # the clauses that depend on the object only are evaluated once (UNIV_INFO is a value)
+        ulist = ("Definition UNIV : list obj := " + lib.clist([lit_coq(o) for o in objs]) + ".\n"
+                 "Definition UNIV_INFO := Eval vm_compute in map (fun o => (o, (subclass_bool o, multiple_inheritance o, wf_obj o))) UNIV.\n")
+        FULL_TAIL = ("map (fun (oi : obj * (bool * bool * bool)) => let '(o, (sb, mi, wf)) := oi in "
+                     "let h := holds c o in let pn := promotion_negative c o in let ec := enum_class_object o in "
+                     "let ss := sequence_pattern_str c o in let ap := assert_promotion c o in pack "
+                     "[member o V; match h with Some b => b | None => false end; "
+                     "match h with Some _ => true | None => false end; "
+                     "member o Np; member o Nn; pn; sb; mi; ec; ss; ap; "
+                     "wf && cond_ok c o && negb mi && negb sb && negb pn && negb ec && negb ss && negb ap]) UNIV_INFO")
+
+        def model_term(v, c, full):
+            return (f"(let V := {value_coq(v)} in let c := {cond_coq(c)} in "
+                    "let Np := narrow V c true in let Nn := narrow V c false in "
+                    "(Np, Nn, boolab_of V, " + (FULL_TAIL if full else "@nil N") + ", "
+                    + ("(narrow_e2e V c true, narrow_e2e V c false)" if simple_boolop(c) else "(@nil sval, @nil sval)") + "))")
+
+        # every case: both narrowed values and the boolability; the per-object facts (spec vs CPython,
+        # guard clauses) for every case in the thorough tier / a replay, for 1 case in 5 in the quick
+        # tier, and afterwards (second batch) for every case on which the oracle found a failure
+        full_idx = set(i for i in range(len(cases)) if tier != "quick" or replay or i % 5 == 0)
+        terms = [model_term(v, c, i in full_idx) for i, (v, c) in enumerate(cases)]
+
+        def _eval_model():
+            try:
+                model_box["model"] = norm(lib.coq_eval(COQ_HEADER + ulist, terms, name="c02", shard=150, jobs=5))
+            except Exception as ex:  # reported after the join
+                model_box["error"] = str(ex)
+
+        import threading
+
+        model_thread = threading.Thread(target=_eval_model)
+        model_thread.start()
+
     # 3. implementation (API + end to end) and oracle facts
     api = []
     boolab = []
@@ -988,41 +1409,45 @@ def run(tier: str, replay: str | None = None):
             boolab.append(("CRASH:" + repr(ex), False, False))
     _t["api"] = _time.time()
     srcs = {}
+    import zlib
+
+    def e2e_wanted(i, v, c):
+        # quick tier: every match / assert / len / composite case goes end to end, the other
+        # (single value, leaf) pairs only with probability 1/2 (deterministic in the case)
+        if tier != "quick" or replay or len(v) > 1 or c[0] in ("pat", "assertinst", "assertis", "hasattr", "len", "rlen", "not", "and", "or", "matchclass"):
+            return True
+        return zlib.crc32(repr((lib.seed(), v, c)).encode()) % 2 == 0
+
     for i, (v, c) in enumerate(cases):
+        if not e2e_wanted(i, v, c):
+            continue
         s = case_src(i, v, c)
         if s is not None:
             srcs[i] = s
     try:
-        e2e = impl_e2e(srcs)
+        # three worker processes (fork), each annotating its share of the generated modules
+        import multiprocessing as _mp
+
+        items = sorted(srcs.items())
+        parts = [dict(items[k::3]) for k in range(3)] if len(items) > 300 else [dict(items)]
+        if len(parts) == 1:
+            e2e = impl_e2e(parts[0])
+        else:
+            with _mp.get_context("fork").Pool(3) as pool:
+                e2e = {}
+                for part in pool.map(impl_e2e, parts):
+                    e2e.update(part)
     except Exception as ex:
         e2e = {}
         rep.violation({"kind": "broken-correspondence", "correspondence": "Model.narrow vs annotate_code (end to end)", "detail": repr(ex)[-1500:]}, no_failing_input=True)
 
     _t["e2e"] = _time.time()
-    # 4. model
-    model_ok = proof is not None and not any("build failed" in b for b in proof.broken)
-    model = None
-    if model_ok:
-        # the clauses that depend on the object only are evaluated once (UNIV_INFO is a value)
-        ulist = ("Definition UNIV : list obj := " + lib.clist([lit_coq(o) for o in objs]) + ".\n"
-                 "Definition UNIV_INFO := Eval vm_compute in map (fun o => (o, (subclass_bool o, multiple_inheritance o, wf_obj o))) UNIV.\n")
-        terms = []
-        for v, c in cases:
-            terms.append(
-                f"(let V := {value_coq(v)} in let c := {cond_coq(c)} in "
-                "let Np := narrow V c true in let Nn := narrow V c false in "
-                "(Np, Nn, boolab_of V, map (fun (oi : obj * (bool * bool * bool)) => let '(o, (sb, mi, wf)) := oi in "
-                "let h := holds c o in let pn := promotion_negative c o in let ec := enum_class_object o in pack "
-                "[member o V; match h with Some b => b | None => false end; "
-                "match h with Some _ => true | None => false end; "
-                "member o Np; member o Nn; pn; sb; mi; ec; "
-                "wf && cond_ok c o && negb mi && negb sb && negb pn && negb ec]) UNIV_INFO))"
-            )
-        try:
-            model = norm(lib.coq_eval(COQ_HEADER + ulist, terms, name="c02", shard=150, jobs=6))
-        except RuntimeError as ex:
-            rep.violation({"kind": "broken-correspondence", "correspondence": "Model.narrow (evaluation failed)", "detail": str(ex)[-1500:]}, no_failing_input=True)
-            model = None
+    # 4. model: join the evaluation thread started above
+    if model_thread is not None:
+        model_thread.join()
+    model = model_box.get("model")
+    if "error" in model_box:
+        rep.violation({"kind": "broken-correspondence", "correspondence": "Model.narrow (evaluation failed)", "detail": model_box["error"][-1500:]}, no_failing_input=True)
 
     _t["model"] = _time.time()
     # 5. verdicts
@@ -1045,7 +1470,7 @@ def run(tier: str, replay: str | None = None):
             mt = model[i]
             m = [model_value(mt[0]), model_value(mt[1])]
             mboolab = mt[2]
-            mobj = [unpack(x) for x in mt[3]]
+            mobj = [unpack(x) for x in mt[3]] if mt[3] else None
         a0, a1 = api[i]
         if isinstance(a0, frozenset) and isinstance(a1, frozenset):
             key = "both_never" if not a0 and not a1 else "pos_never" if not a0 else "neg_never" if not a1 else "both_nonempty"
@@ -1064,6 +1489,22 @@ def run(tier: str, replay: str | None = None):
                     continue
                 if out is None:
                     continue
+                if rname == "e2e" and simple_boolop(c):
+                    # visit_BoolOp's scope merge is modelled (Model.narrow_e2e): exact comparison
+                    if m is not None:
+                        me = model_value(mt[4][0 if pol else 1])
+                        if out != me:
+                            # e.g. `a or b` where x is Never while b is visited: b's comparison is Never and
+                            # its constraint is lost (sound); such cases fall back to the extensional test
+                            hist["e2e_boolop_fallbacks"] = hist.get("e2e_boolop_fallbacks", 0) + 1
+                            ext_i = [py_member(o, tuple(out)) for o in pyobjs]
+                            ext_m = [py_member(o, tuple(m[0 if pol else 1])) for o in pyobjs]
+                            tst = tested_of(c)
+                            if not all(a == b or (a and not b and py_member(o, tst)) for a, b, o in zip(ext_i, ext_m, pyobjs)):
+                                corr.append((i, f"{rname}:{pol}:narrow_e2e", sorted(map(str, out)), sorted(map(str, me))))
+                        else:
+                            hist["e2e_boolop_exact"] = hist.get("e2e_boolop_exact", 0) + 1
+                    continue
                 if rname == "e2e" and has_boolop(c):
                     # visit_BoolOp merges the scopes of its operands back into x (the value the
                     # constraint is applied to becomes V plus narrowed copies of its members), so
@@ -1071,7 +1512,7 @@ def run(tier: str, replay: str | None = None):
                     # same members among the universe objects
                     if m is not None:
                         ext_i = [py_member(o, tuple(out)) for o in pyobjs]
-                        ext_m = [mo[2][0 if pol else 1] for mo in mobj]
+                        ext_m = [py_member(o, tuple(m[0 if pol else 1])) for o in pyobjs]
                         tst = tested_of(c)
                         extra_ok = all(a == b or (a and not b and py_member(o, tst)) for a, b, o in zip(ext_i, ext_m, pyobjs))
                         if not extra_ok:
@@ -1089,7 +1530,7 @@ def run(tier: str, replay: str | None = None):
                 h = py_holds(c, o)
             except Raises:
                 h = None
-            if m is not None:
+            if m is not None and mobj is not None:
                 mo = mobj[j]
                 mh = None if mo[1] is None else mo[1][1]
                 if mo[0] != inV or mh != h:
@@ -1121,12 +1562,22 @@ def run(tier: str, replay: str | None = None):
         p.update(extra)
         return p
 
+    if model is not None:
+        need = sorted(set(i for (i, _r, _p, _j, kind) in failing if kind in ("lost", "always_true_wrong") and not model[i][3]))
+        if need:
+            try:
+                extra = norm(lib.coq_eval(COQ_HEADER + ulist, [model_term(cases[i][0], cases[i][1], True) for i in need], name="c02b", shard=150, jobs=6))
+                for i, r in zip(need, extra):
+                    model[i] = r
+            except RuntimeError as ex:
+                rep.violation({"kind": "broken-correspondence", "correspondence": "Model.narrow (second evaluation failed)", "detail": str(ex)[-1500:]}, no_failing_input=True)
+
     new_failures = []
     for (i, rname, pol, j, kind) in failing:
         attributed = None
-        if model is not None and kind in ("lost", "always_true_wrong"):
+        if model is not None and kind in ("lost", "always_true_wrong") and model[i][3]:
             mo = unpack(model[i][3][j])
-            clauses = dict(zip(("promotion_negative", "subclass_bool", "multiple_inheritance", "enum_class_object"), mo[3]))
+            clauses = dict(zip(("promotion_negative", "subclass_bool", "multiple_inheritance", "enum_class_object", "sequence_pattern_str", "assert_promotion"), mo[3]))
             if kind == "lost":
                 impl_out = api[i][0 if pol else 1] if rname == "api" else e2e[i][0 if pol else 1]
                 mout = model_value(model[i][0 if pol else 1])
@@ -1172,7 +1623,7 @@ def run(tier: str, replay: str | None = None):
         rep.violation(payload(i, {"kind": "broken-correspondence", "correspondence": f"Narrow.Model.narrow/boolab_of vs constrain_value/annotate_code/get_boolability [{what}]",
                                   "observed": iv, "model": mv, "mismatches": len(corr)}), no_failing_input=True)
     if broken_translation and not found_input:
-        rep.violation({"kind": "broken-obligation", "theorem": "Gen/NarrowTable.v (translator)", "detail": broken_translation}, no_failing_input=True)
+        rep.violation({"kind": "broken-obligation", "theorem": "Gen/NarrowTable.v / Gen/NarrowPreds.v (translators)", "detail": broken_translation}, no_failing_input=True)
     if proof is not None and not proof.ok and not found_input:
         rep.violation({"kind": "broken-obligation", "theorem": "; ".join(proof.broken), "log": proof.log[-1500:]}, no_failing_input=True)
     if spec_mismatch:
@@ -1191,7 +1642,7 @@ def run(tier: str, replay: str | None = None):
         correspondence_mismatches=len(corr),
         oracle_failures_unattributed=len(new_failures),
         oracle_failures_attributed={k: True for k in known_hits},
-        spec_vs_cpython_pairs=len(cases) * len(objs) if model is not None else 0,
+        spec_vs_cpython_pairs=len(full_idx) * len(objs) if model is not None else 0,
         exhaustive=(tier == "thorough" and not replay),
         stage_seconds={"impl_api": round(_t["api"] - _t["start"], 1), "impl_e2e": round(_t["e2e"] - _t["api"], 1),
                        "model_vm_compute": round(_t["model"] - _t["e2e"], 1), "oracle_and_verdicts": round(_time.time() - _t["model"], 1)},
